@@ -210,8 +210,9 @@ CHECKS = {
         note=("Exhaustive on the lattice only (Keplerian phases 0 and pi, e in {0, 0.6, 0.8}, P in {2, 4} d); off the lattice agreement with "
               "the closed form is explored on seeded random problems inside the input classes no known finding touches, not decided for "
               "every real input. Trusted: TLC, numpy slogdet/solve for the density of a given Gaussian, twobody's Kepler solver. "
-              "Multi-survey lattice cases are time-disjoint in list order (C08's open finding). Open kernel findings are classified "
-              "exactly by named deviations (KF_CustomKSlot, KF_P0Unit)."),
+              "Multi-survey lattice cases are time-disjoint in list order (C08's open finding). The kernel findings of earlier sessions "
+              "(KF_CustomKSlot, KF_P0Unit, KF_NoCapOnPosterior, jitter, Woodbury cancellation) are repaired; their named deviations stay in "
+              "the specification and would classify a recurrence."),
         technique="TLA+ spec (Gauss) in exact rational arithmetic, theorems model-checked with TLC; replay of TLC-enumerated structural points; kernel state validated entry by entry by total monitor",
     ),
     "C03": dict(
@@ -226,7 +227,7 @@ CHECKS = {
               "Gauss.tla on seeded random real-valued problems (uncapped K priors; quick 60, thorough 1500; 1e-6 relative)."),
         design_ref="DESIGN.md section 3 C03",
         note=("Exhaustive on the lattice only; off the lattice explored on seeded random problems. Not decided: that numpy's multivariate_normal samples the distribution it is given (independence of "
-              "draws). Open findings KF_NoCapOnPosterior, KF_P0Unit, KF_CustomKSlot are classified exactly."),
+              "draws). The former kernel findings (KF_NoCapOnPosterior, KF_P0Unit, KF_CustomKSlot) are repaired."),
         technique="TLA+ spec (Gauss) exact rationals checked with TLC; replay of TLC-enumerated structural points with a scripted generator; total monitor",
     ),
     "C04": dict(
@@ -241,28 +242,31 @@ CHECKS = {
               "from the real code (get_orbit) and prior / posterior densities from the TLC-certified floating-point transcription of "
               "Gauss.tla (quick 80, thorough 1500; 1e-6 relative to the largest term)."),
         design_ref="DESIGN.md section 3 C04",
-        note=("Exhaustive on the lattice only; off the lattice explored on seeded random problems. twobody's KeplerOrbit is the independent orbit path. A failing identity is attributed to an open "
-              "kernel finding only when the kernel's marginal or posterior state in the same trace was classified as that deviation."),
+        note=("Exhaustive on the lattice only; off the lattice explored on seeded random problems. twobody's KeplerOrbit is the independent orbit path. A failing identity would be attributed to a "
+              "listed kernel finding only when the kernel's marginal or posterior state in the same trace was classified as that "
+              "deviation (none is open)."),
         technique="TLA+ spec (Gauss) exact rationals checked with TLC; replay of TLC-enumerated structural points; total monitor",
     ),
     "C07": dict(
         category="model_checking",
         text=("Gauss is stated in physical units only, so every unit assignment of a configuration must project to the same exact "
               "matrices: each structural point is realised in 2 (thorough 3) random unit assignments - data km/s or m/s, every prior "
-              "scale km/s or m/s, slopes per day or per year, period prior in d / 8 d / d/8, P0 in d / yr / 8 d, sample columns d/yr, "
-              "rad/deg, km/s / m/s - and marginal state, value (incl. N ln ratio), posterior state, emitted columns and orbit are "
-              "validated by TLC against the single physical specification; rejection_sample twins with equal seeds must accept the "
-              "same rows, differ in ln-likelihood only by the Jacobian constant and return physically equal samples."),
+              "scale km/s or m/s, slopes per day or per year, period prior in d / 8 d / d/8 / yr / h, P0 in d / yr / 8 d / h, sample "
+              "columns d/yr, rad/deg, km/s / m/s - and marginal state, value (incl. N ln ratio), posterior state, emitted columns and "
+              "orbit are validated by TLC against the single physical specification; rejection_sample twins with equal seeds must "
+              "accept the same rows, differ in ln-likelihood only by the Jacobian constant and return physically equal samples. Off "
+              "the lattice seeded random real-valued problems are posed in random unit assignments (period prior in d / yr / h / 8 d) "
+              "and compared with the unit-free floating-point transcription of the specification (quick 60, thorough 1500)."),
         design_ref="DESIGN.md section 3 C07",
-        note=("On the lattice only. Period-prior units are restricted to d, 8 d, d/8 so that the open finding KF_P0Unit is classified "
-              "exactly; yr / h period priors would be off the lattice while that finding is open."),
+        note=("Exhaustive on the lattice only; off the lattice explored on seeded random problems. The former finding KF_P0Unit (P0 in the "
+              "period prior's unit) is repaired; its named deviation stays in the specification."),
         technique="TLA+ spec (Gauss) in physical units checked with TLC; replay of TLC-enumerated structural points under random unit assignments; total monitor",
     ),
     "C11": dict(
         category="model_checking",
         text=("The sampler's model is Gauss.Curve (Keplerian column, constant, offset columns of MultiSurvey, trend columns relative to "
               "t_ref) and the jitter-inflated Gaussian data term. For structural points TLC enumerates (poly_trend 1..3 x offsets 0..2 x "
-              "K-prior kinds x jitter x e) with lattice values and random unit assignments (period prior in d / 8 d / d/8, velocity "
+              "K-prior kinds x jitter x e) with lattice values and random unit assignments (period prior in d / 8 d / d/8 / yr / h, velocity "
               "priors in km/s / m/s, slopes per day / year, angles rad / deg), setup_mcmc is run on the real prior; model_rv, the "
               "observed node's log-density and the ln_likelihood deterministic are compiled as functions of the prior's own variables "
               "and evaluated at the lattice point: the curve is compared exactly with the specification by TLC, both Gaussian terms "
